@@ -59,8 +59,16 @@ func constBranch(in *ssa.If) (int, bool) {
 		}
 		return 1, true
 	}
+	if ForcedBranch != nil {
+		return ForcedBranch(in)
+	}
 	return 0, false
 }
+
+// ForcedBranch, when set, tells the path searches that only one successor of
+// an If is feasible (e.g. the last test of a switch over the result of a
+// classifier whose other values have all been excluded on the way).
+var ForcedBranch func(*ssa.If) (int, bool)
 
 // Search explores instruction-level control flow from `from`. It stops a path
 // at any instruction for which avoid returns true (the instruction is not
